@@ -22,4 +22,12 @@ def run():
     except Exception as ex:  # pragma: no cover
         print("cannot import graphtage: %r" % ex)
         bad += 1
+    if bad == 0:
+        # binding self-test: every trace specification accepts an unmodified recording and rejects corrupted ones
+        from . import selftest
+        try:
+            selftest.run()
+        except Exception as ex:
+            print("binding self-test FAILED: %s" % ex)
+            bad += 1
     return 0 if bad == 0 else 2
